@@ -1,6 +1,6 @@
 (* C15 -- sampling only ever appends correct rows. *)
-From XV Require Import Prelude Grid Perm Runner Flow Label GenRunner BridgeRunner Harvest
-     GridProofs PermProofs RunnerProofs LabelProofs HarvestProofs.
+From XV Require Import Prelude Grid Perm Runner Flow Label GenRunner BridgeRunner Harvest HarvestFlow GenHarvest BridgeHarvest
+     GridProofs PermProofs RunnerProofs LabelProofs HarvestProofs HarvestFlowProofs.
 Open Scope Z_scope.
 
 (* every synced sampling run appends exactly its rows to the table on disk and changes no
@@ -40,6 +40,16 @@ Proof.
   - exact (df_rows_length f comps resources attrs var_names i Hp).
 Qed.
 
+(* the sampler's add step as the code has it: the control flow REGENERATED from Sampler.add_df /
+   save_full_df (load, concat [held; new], atomic save, memory updated after the write) is the step
+   function the theorems above are about *)
+Theorem C15_generated_add_is_append : forall (s : sst) (rows : table) (sync : bool),
+  sadd_flow_run gen_sadd_flow gen_ssave_flow s rows sync = sstep s (SAdd rows sync).
+Proof. intros. rewrite bridge_sadd_flow, bridge_ssave_flow. apply sadd_flow_is_sstep. Qed.
+
+Theorem C15_code_tie : gen_sadd_flow = model_sadd_flow /\ gen_ssave_flow = model_save_flow /\ gen_sload_rule = model_load_rule.
+Proof. exact (conj bridge_sadd_flow (conj bridge_ssave_flow bridge_sload_rule)). Qed.
+
 Example C15_example :
   let s1 := sstep (mk_sst None None) (SAdd [[1; 10]; [2; 20]] true) in
   let s2 := sstep (sstep s1 SNewSession) (SAdd [[3; 30]] true) in
@@ -50,3 +60,5 @@ Print Assumptions C15_append_only.
 Print Assumptions C15_new_session_continues.
 Print Assumptions C15_stale_memory_reloaded.
 Print Assumptions C15_rows_correct.
+Print Assumptions C15_generated_add_is_append.
+Print Assumptions C15_code_tie.
